@@ -15,6 +15,8 @@
 (*                    the timed wait failed -> leave; otherwise sleep      *)
 (*                    again.  On leaving: unlink, remove the map node if   *)
 (*                    the list became empty, free the record, unlock.      *)
+(*           A wait whose allocations fail (Prog[t].fail) leaves W_Enter   *)
+(*           through the trap path: everything undone, result 3.           *)
 (*  notify : N_Do     lock; look the address up; walk the list marking     *)
 (*                    Waiting records Notified and signalling them, up to  *)
 (*                    count; unlock (one critical section).                *)
@@ -31,7 +33,8 @@
 EXTENDS Naturals, Integers, FiniteSets, Sequences, TLC
 
 CONSTANTS Threads, Prog, B, SpuriousBudget
-\* Prog[t] = [op |-> "wait32"|"notify"|"store", a |-> address, x |-> expected/count/value, timed |-> BOOLEAN]
+\* Prog[t] = [op |-> "wait32"|"notify"|"store", a |-> address, x |-> expected/count/value, timed |-> BOOLEAN,
+\*            fail |-> BOOLEAN (a wait for which the host cannot allocate memory)]
 
 VARIABLES mutex,     \* 0 or the owning thread
           mcell,     \* address -> value
@@ -70,6 +73,11 @@ W_Enter(t) ==
     /\ pc[t] = "called" /\ Prog[t].op = "wait32" /\ mutex = 0
     /\ IF MCell(a) # Prog[t].x
        THEN /\ pc' = [pc EXCEPT ![t] = "ret"] /\ ret' = [ret EXCEPT ![t] = 1]
+            /\ UNCHANGED <<mutex, mcell, why, buckets, wlist, wstat, wlive, sig, spur, bad>>
+       ELSE IF Prog[t].fail
+       THEN \* calloc (wait record, map, map node) or the condition variable's initialisation failed: whatever was allocated is
+            \* freed again, the mutex is released and the call traps - no list, node or other waiter is touched
+            /\ pc' = [pc EXCEPT ![t] = "ret"] /\ ret' = [ret EXCEPT ![t] = 3]
             /\ UNCHANGED <<mutex, mcell, why, buckets, wlist, wstat, wlive, sig, spur, bad>>
        ELSE /\ wlive' = [wlive EXCEPT ![t] = TRUE]
             /\ wstat' = [wstat EXCEPT ![t] = "Waiting"]
@@ -159,7 +167,7 @@ ListsConsistent ==
 \* a signalled or notified waiter is never left asleep for ever: if it is Notified it has a pending signal or is awake
 NoLostWakeup == \A t \in Threads : (wstat[t] = "Notified" /\ pc[t] = "asleep") => sig[t]
 ReturnCodes == \A t \in Threads : pc[t] \in {"ret", "done"} =>
-                   IF Prog[t].op = "wait32" THEN ret[t] \in {0, 1, 2} /\ (ret[t] = 2 => Prog[t].timed)
+                   IF Prog[t].op = "wait32" THEN ret[t] \in {0, 1, 2, 3} /\ (ret[t] = 2 => Prog[t].timed) /\ (ret[t] = 3 <=> (Prog[t].fail /\ ret[t] # 1))
                    ELSE IF Prog[t].op = "notify" THEN ret[t] <= Prog[t].x ELSE TRUE
 \* the only way to be stuck: untimed waiters nobody can wake any more
 DeadlockOK == (~ENABLED Next) => \A t \in Threads : pc[t] = "done" \/ (pc[t] = "asleep" /\ ~Prog[t].timed /\ wstat[t] = "Waiting")
@@ -183,7 +191,7 @@ Abs == INSTANCE FutexAbs WITH cell <- mcell, waiting <- absWaiting, ts <- absTs
 \* each implementation step is an abstract step (or a stuttering step) under the mapping
 AbsStep == \/ UNCHANGED <<absTs, absWaiting, mcell>>
            \/ \E t \in Threads : \/ Abs!Call(t, Prog[t].op, Prog[t].a, Prog[t].x, Prog[t].timed)
-                                 \/ Abs!WaitCheck(t) \/ Abs!Timeout(t) \/ Abs!StoreDo(t)
+                                 \/ Abs!WaitCheck(t) \/ Abs!WaitFail(t) \/ Abs!Timeout(t) \/ Abs!StoreDo(t)
                                  \/ \E W \in SUBSET Threads : Abs!NotifyDo(t, W)
                                  \/ \E r \in 0..Cardinality(Threads) : Abs!Ret(t, r)
 Refines == [][AbsStep]_vars
